@@ -51,6 +51,7 @@ var (
 		"schedule must be a string or an array of strings",
 	)
 	errInvalidScheduleType        = errors.New("invalid schedule type")
+	errScheduleKeyInvalid         = errors.New("schedule key must be start, stop or restart")
 	errInvalidKeyType             = errors.New("invalid key type")
 	errExecutorConfigMustBeString = errors.New(
 		"executor config key must be string",
